@@ -1,14 +1,18 @@
 import BctVerif.Props.CoresFloyd
 import BctVerif.Props.CoresPeel
 import BctVerif.Props.CoresUtil
+import BctVerif.Props.CoresTp
 import BctVerif.Props.CoresComp
 import BctVerif.Props.CoresDijk
+import BctVerif.Props.CoresPath
+import BctVerif.Props.CoresBin
+import BctVerif.Props.CoresBfs
 
 /-!
 # T-gen for core update steps — the link theorems in one place
 
 `translate/cores.py` re-extracts, on every check run, the statements of a further set of bct routines from `/repo`'s
-current source into `BctVerif/Gen/Cores{Floyd,Peel,Util,Comp,Dijk}.lean`, each with one `decide` obligation per routine.  The
+current source into `BctVerif/Gen/Cores{Floyd,Peel,Util,Comp,Dijk,Path}.lean`, each with one `decide` obligation per routine.  The
 modules imported here prove, once and for all extracted values, what a passed obligation means (`notes/TGEN.md`):
 
 | family | IR + interpreter | link theorems (this directory) | model functions reached |
@@ -16,7 +20,10 @@ modules imported here prove, once and for all extracted values, what a passed ob
 | floyd (C03, C12) | `Model/CoreIRFloyd.lean` | `CoresFloyd`: `link_stage`, `link_final`, `link_floyd_none/_inv/_log/_other` | `Dist.fStage`, `Dist.fFinal`, `Dist.floyd ∘ Dist.lenMat` |
 | peel (C15) | `Model/CoreIRPeel.lean` | `CoresPeel`: `link_kcore_bu/_bd`, `link_score_wu`, `…_model`, `link_coreness_bu/_bd` | `Core.peelLoop` with `degBu/degBd/strWu`, `Core.kcoreBu/kcoreBd/scoreWu`, `Core.kcorenessBu/kcorenessBd` |
 | comp (C16) | `Model/CoreIRComp.lean` | `CoresComp`: `inner_loop`, `outer_body`, `link_get_components`, `link_get_components_model` | `Comp.scan`, `Comp.unionSets`, `Comp.labels`, `Comp.getComponents` |
-| dijk (C03) | `Model/CoreIRDijk.lean` | `CoresDijk`: `link_relax` | `Dist.relaxFrom` |
-| util (C17, C06) | `Model/CoreIRUtil.lean` | `CoresUtil`: `link_teachers_round`, `link_threshold_absolute`, `link_binarize`, `link_normalize`, `link_invert`, `link_logtransform`, `link_cuberoot`, `link_pick_four` | `Thresh.teachersRound/thresholdAbsolute/binarize/normalize/invert`, `Signed.pickFour` |
+| dijk (C03) | `Model/CoreIRDijk.lean` | `CoresDijk`: `link_relax` (block), `block_env`, `settle_spec`, `tail_spec`, `pass_spec`, `while_spec`, `row_spec`, `rows_spec`, `link_distance_wei` (whole routine) | `Dist.relaxFrom`, `Dist.settle`, `Dist.minOver`, `Dist.dLoop`, `Dist.dRow`, `Dist.dijkstra` |
+| path (C12) | `Model/CoreIRPath.lean` | `CoresPath`: `loop_spec`, `link_retrieve` | `Dist.retrieve`, `Dist.retrieveGo` |
+| bin (C03) | `Model/CoreIRBin.lean` | `CoresBin`: `body_spec`, `loop_spec`, `link_distance_bin` | `Dist.boolMul`, `Dist.binLoop`, `Dist.binRaw`, `Dist.distBin` |
+| bfs (C03) | `Model/CoreIRBfs.lean` | `CoresBfs`: `quirk_step`, `paint_step`, `visit_step`, `inner_spec`, `pass_spec`, `loop_spec`, `link_breadth`, `link_breadth_model`, `link_breadthdist` | `Dist.quirk`, `paint`, `visit`, `blackenSt`, `bfsLoop`, `breadth`, `breadthdist` |
+| util (C17, C06) | `Model/CoreIRUtil.lean` | `CoresUtil`: `link_teachers_round`, `link_threshold_absolute`, `link_binarize`, `link_normalize`, `link_invert`, `link_logtransform`, `link_cuberoot`, `link_pick_four`, `link_weight_conversion`; `CoresTp` (`Model/CoreIRTp.lean`): `link_threshold_proportional` | `Thresh.teachersRound/thresholdAbsolute/binarize/normalize/invert/weightConversion/thresholdProportional`, `Signed.pickFour` |
 
 -/
